@@ -47,6 +47,9 @@ pub struct Sim {
     pub nww: usize,
     pub win_reads: u32,
     pub fatal: bool,
+    /// recursive-window pages touched during the last finished call (kept after end_call for the C20 oracle)
+    pub last_win: [u64; 64],
+    pub nlast: usize,
 }
 
 pub static mut SIM: Option<Sim> = None;
@@ -143,6 +146,8 @@ impl Sim {
     }
     pub fn end_call(&mut self) {
         self.active = false;
+        self.last_win = self.win_pages;
+        self.nlast = self.nwin;
         // tear down demand-mapped window pages and scratch pages ("empty TLB between calls")
         for i in 0..self.nwin {
             unsafe { libc::munmap(self.win_pages[i] as *mut c_void, FSZ) };
@@ -330,7 +335,7 @@ pub fn init(view: View, pbase: u64, perm_seed: u64) {
         let mut s = Sim {
             fd, oracle: oracle as *mut u8, pbase, view, perm, is_table: [false; NF], prot_rw: [false; NF], active: false,
             strays: [Stray { addr: 0, phys: 0, frame: 0, write: false, rip: 0, kind: 0 }; 16], nstray: 0,
-            win_pages: [0; 64], nwin: 0, win_writes: [(0, 0); 64], nww: 0, win_reads: 0, fatal: false,
+            win_pages: [0; 64], nwin: 0, win_writes: [(0, 0); 64], nww: 0, win_reads: 0, fatal: false, last_win: [0; 64], nlast: 0,
         };
         match view {
             View::Linear | View::Permuted => {
